@@ -8,8 +8,9 @@
    Matrix canonical JSON leaves alone).  [canonical] (Json/Print.v) is the model of CanonicalJSON,
    [enforced] (Json/CanonC01.v) of EnforcedCanonicalJSON; both are compared byte for byte with the
    library on every run. *)
+From Coq Require Import Permutation.
 From Verif Require Import Lib.Bytes Json.Ast Json.Parse Json.Print Json.Render Json.NumFacts
-  Json.ParseComplete Json.CanonFacts Json.CanonC01 Json.CanonSpecC01 Json.C01Proofs Json.CanonFormProofs Json.ParseSound Gen.GenVersions.
+  Json.ParseComplete Json.CanonFacts Json.CanonC01 Json.CanonSpecC01 Json.C01Proofs Json.CanonFormProofs Json.ParseSound Json.PermFacts Gen.GenVersions.
 Open Scope N_scope.
 
 (* every presentation of a value is accepted by the reference parser and read as that value *)
@@ -29,6 +30,17 @@ Proof. exact C01Proofs.canonical_preserves_value. Qed.
 Theorem canonical_unique : forall v v' t t',
   RendersText v t -> RendersText v' t' -> jequiv v v' -> canonical t = canonical t'.
 Proof. exact C01Proofs.canonical_unique. Qed.
+
+(* the same with the relation spelled out: [json_perm] (Json/PermFacts.v) = equal up to a permutation
+   of the members of every object (keys without duplicates) and the spelling of integers *)
+Theorem json_perm_is_equivalence_of_values : forall v v', json_perm v v' -> jequiv v v'.
+Proof. exact json_perm_equiv. Qed.
+
+Theorem canonical_unique_up_to_member_order : forall v v' t t',
+  RendersText v t -> RendersText v' t' -> json_perm v v' -> canonical t = canonical t'.
+Proof.
+  intros v v' t t' H H' P. exact (C01Proofs.canonical_unique v v' t t' H H' (json_perm_equiv v v' P)).
+Qed.
 
 (* ... and texts of different values never do *)
 Theorem canonical_separates : forall v v' t t',
@@ -145,6 +157,16 @@ Qed.
 Example ex_rejects : canonical (bs "[1,]") = None /\ canonical (bs "{""a"":01}") = None /\ canonical [] = None.
 Proof. vm_compute. auto. Qed.
 
+Example ex_perm :
+  json_perm (JObj [(bs "a", JNum (bs "1")); (bs "b", JNum (bs "-0"))])
+            (JObj [(bs "b", JNum (bs "0")); (bs "a", JNum (bs "1"))]).
+Proof.
+  apply (JP_obj _ [(bs "b", JNum (bs "-0")); (bs "a", JNum (bs "1"))]).
+  - repeat constructor; simpl; intuition discriminate.
+  - apply perm_swap.
+  - repeat constructor.
+Qed.
+
 Example ex_unsafe : has_unsafe_number (JArr [JNum (bs "1"); JNum (bs "9007199254740992")]) = true
                     /\ has_unsafe_number (JArr [JNum (bs "0.0")]) = true
                     /\ has_unsafe_number (JArr [JNum (bs "-9007199254740991")]) = false.
@@ -158,6 +180,8 @@ Print Assumptions parse_of_any_rendering.
 Print Assumptions canonical_of_rendering.
 Print Assumptions canonical_preserves_value.
 Print Assumptions canonical_unique.
+Print Assumptions json_perm_is_equivalence_of_values.
+Print Assumptions canonical_unique_up_to_member_order.
 Print Assumptions canonical_separates.
 Print Assumptions canonical_idempotent.
 Print Assumptions parse_accepts_only_json.
